@@ -528,7 +528,9 @@ package common
 //@ ufun sh_pivot(Root32, int, int) int
 //@ axiom sh_pivot_def [manual]: forall seed Root32, r int, n int :: {sh_pivot(seed, r, n)} n > 0 ==> sh_pivot(seed, r, n) == le64val(sha256(cat(seed, Bytes1(r)))) % n
 //@ ufun sh_bit(Root32, int, int) int
-//@ axiom sh_bit_def [manual]: forall seed Root32, r int, pos int :: {sh_bit(seed, r, pos)} pos >= 0 ==> sh_bit(seed, r, pos) == (sha256(cat(seed, Bytes1(r), le32(pos / 256)))[(pos % 256) / 8] / pow2(pos % 8)) % 2
+//@ ufun sh_src(Root32, int, int) Root32
+//@ axiom sh_src_def [manual]: forall seed Root32, r int, w int :: {sh_src(seed, r, w)} sh_src(seed, r, w) == sha256(cat(seed, Bytes1(r), le32(w)))
+//@ axiom sh_bit_def [manual]: forall seed Root32, r int, pos int :: {sh_bit(seed, r, pos)} pos >= 0 ==> sh_bit(seed, r, pos) == (sh_src(seed, r, pos / 256)[(pos % 256) / 8] / pow2(pos % 8)) % 2
 //@ define sh_flip(seed Root32, r int, n int, i int) int = (sh_pivot(seed, r, n) + n - i) % n
 //@ ufun sh_round(Root32, int, int, int) int
 //@ axiom sh_round_def [manual]: forall seed Root32, r int, n int, i int :: {sh_round(seed, r, n, i)} sh_round(seed, r, n, i) == ite(sh_bit(seed, r, max(i, sh_flip(seed, r, n, i))) == 1, sh_flip(seed, r, n, i), i)
@@ -555,14 +557,14 @@ package common
 // the hash function the callers pass: hashing.Hash = SHA-256). List sizes up to 2^40 (VALIDATOR_REGISTRY_LIMIT).
 //@ func innerPermuteIndex(hashFn, rounds, input, listSize, seed, dir) res
 //@   opt inline=always
-//@   use sh_pivot_def, sh_bit_def, sh_round_def, sh_fwd_def, sh_bwd_def, sh_mod2n, sh_pivot_range, sh_round_range, sh_fwd_range, sh_bwd_range
-//@   after Hash@1 pivot_hash: result == sha256(cat(seed, Bytes1(r)))
+//@   use sh_pivot_def, sh_src_def, sh_bit_def, sh_round_def, sh_fwd_def, sh_bwd_def, sh_mod2n, sh_pivot_range, sh_round_range, sh_fwd_range, sh_bwd_range
+//@   after hashFn@1 pivot_hash: result == sha256(cat(seed, Bytes1(r)))
 //@   after Uint64@1 pivot: result % listSize == sh_pivot(seed, r, listSize)
 //@   after PutUint32@1 position: flip == sh_flip(seed, r, listSize, index) && position == max(index, flip) && position < listSize
 //@   after PutUint32@1 round: sh_round(seed, r, listSize, index) == ite(sh_bit(seed, r, position) == 1, sh_flip(seed, r, listSize, index), index)
-//@   after Hash@2 source_hash: result == sha256(cat(seed, Bytes1(r), le32(max(index, sh_flip(seed, r, listSize, index)) / 256)))
-//@   after Hash@2 bit: (result[(position % 256) / 8] / pow2(position % 8)) % 2 == sh_bit(seed, r, position)
-//@   after Hash@2 unfold: ktrig(r + 1) && ktrig(r) && sh_fwd(seed, listSize, input, r + 1) == sh_round(seed, r, listSize, sh_fwd(seed, listSize, input, r)) && sh_bwd(seed, listSize, index, r + 1) == sh_bwd(seed, listSize, sh_round(seed, r, listSize, index), r)
+//@   after hashFn@2 source_hash: result == sh_src(seed, r, position / 256)
+//@   after hashFn@2 bit: (result[(position % 256) / 8] / pow2(position % 8)) % 2 == sh_bit(seed, r, position)
+//@   after hashFn@2 unfold: ktrig(r + 1) && ktrig(r) && sh_fwd(seed, listSize, input, r + 1) == sh_round(seed, r, listSize, sh_fwd(seed, listSize, input, r)) && sh_bwd(seed, listSize, index, r + 1) == sh_bwd(seed, listSize, sh_round(seed, r, listSize, index), r)
 //@   loop 1
 //@     invariant r < rounds && index < listSize && len(buf) == 37
 //@     invariant forall b :: 0 <= b && b < 32 ==> buf[b] == seed[b]
@@ -571,17 +573,90 @@ package common
 
 //@ func PermuteIndex(rounds, index, listSize, seed) r
 //@   property C06 C07
-//@   use sh_pivot_def, sh_bit_def, sh_round_def, sh_fwd_def, sh_bwd_def, sh_mod2n, sh_pivot_range, sh_round_range, sh_fwd_range, sh_bwd_range
+//@   use sh_pivot_def, sh_src_def, sh_bit_def, sh_round_def, sh_fwd_def, sh_bwd_def, sh_mod2n, sh_pivot_range, sh_round_range, sh_fwd_range, sh_bwd_range
 //@   requires 0 < listSize && listSize <= 1099511627776 && index < listSize
 //@   ensures spec: r == sh_fwd(seed, listSize, index, rounds)
 //@   ensures range: r < listSize
 
 //@ func UnpermuteIndex(rounds, index, listSize, seed) r
 //@   property C06
-//@   use sh_pivot_def, sh_bit_def, sh_round_def, sh_fwd_def, sh_bwd_def, sh_mod2n, sh_pivot_range, sh_round_range, sh_fwd_range, sh_bwd_range
+//@   use sh_pivot_def, sh_src_def, sh_bit_def, sh_round_def, sh_fwd_def, sh_bwd_def, sh_mod2n, sh_pivot_range, sh_round_range, sh_fwd_range, sh_bwd_range
 //@   requires 0 < listSize && listSize <= 1099511627776 && index < listSize
 //@   ensures spec: r == sh_bwd(seed, listSize, index, rounds)
 //@   ensures range: r < listSize
+
+
+// ---------------------------------------------------------------- swap-or-not shuffle, whole list (C06)
+// sh_up(x, k, R): rounds k, k+1, .. R-1 applied to x in that order (what is left to undo while un-shuffling)
+//@ ufun sh_up(Root32, int, int, int, int) int
+//@ axiom sh_up_def [manual]: forall seed Root32, n int, x int, k int, R int :: {sh_up(seed, n, x, k, R), ktrig(k)} sh_up(seed, n, x, k, R) == ite(k >= R, x, sh_up(seed, n, sh_round(seed, k, n, x), k + 1, R))
+//@ lemma sh_up_last [C06, induct=d, manual, use=sh_up_def, use=sh_round_range]: forall d int, seed Root32, n int, x int, k int, R int :: {sh_up(seed, n, x, k, R + 1), ktrig(d)} ktrig(k) && ktrig(k + 1) && ktrig(R) && ktrig(R + 1) && 0 < n && 0 <= x && x < n && 0 <= k && R - k == d ==> sh_up(seed, n, x, k, R + 1) == sh_round(seed, R, n, sh_up(seed, n, x, k, R))
+//@ lemma sh_up_fwd [C06, induct=R, manual, use=sh_up_def, use=sh_fwd_def, use=sh_up_last]: forall R int, seed Root32, n int, x int :: {sh_up(seed, n, x, 0, R)} ktrig(R) && ktrig(0) && ktrig(1) && 0 < n && 0 <= x && x < n ==> sh_up(seed, n, x, 0, R) == sh_fwd(seed, n, x, R)
+
+
+// ShuffleList / UnshuffleList: after processing a round, position x holds what sh_round(x) held before, so
+// after all rounds: shuffled[x] == in[sh_bwd(x)] and unshuffled[x] == in[sh_fwd(x)] (= in[compute_shuffled_index(x)]).
+// sh_g: the index of the original list whose element sits at x before round r is processed.
+//@ define sh_g(dir bool, seed Root32, n int, x int, r int, R int) int = ite(dir, sh_bwd(seed, n, x, r), sh_up(seed, n, x, r + 1, R))
+//@ func innerShuffleList(hashFn, rounds, input, seed, dir)
+//@   opt inline=always
+//@   opt forget=hashFn
+//@   after hashFn@1 pivot_hash: result == sha256(cat(seed, Bytes1(r)))
+//@   after Uint64@1 pivot: result % listSize == sh_pivot(seed, r, listSize)
+//@   after hashFn@2 src1: result == sh_src(seed, r, pivot / 256)
+//@   after hashFn@3 src1r: result == sh_src(seed, r, j / 256)
+//@   after hashFn@4 src2: result == sh_src(seed, r, end / 256)
+//@   after hashFn@5 src2r: result == sh_src(seed, r, j / 256)
+//@   after =bitV@1 bytefact: byteV == source[(j % 256) / 8] && source == sh_src(seed, r, j / 256)
+//@   after =bitV@1 jstep: j >= 1 && ((j - 1) % 8 != 7 ==> ((j - 1) % 256) / 8 == (j % 256) / 8 && j % 8 != 0) && ((j - 1) % 256 != 255 ==> (j - 1) / 256 == j / 256)
+//@   after =bitV@1 bit: result == sh_bit(seed, r, j)
+//@   after =bitV@1 flips: sh_flip(seed, r, listSize, i) == j && sh_flip(seed, r, listSize, j) == i && i < j
+//@   after =bitV@1 rounds: sh_round(seed, r, listSize, i) == ite(result == 1, j, i) && sh_round(seed, r, listSize, j) == ite(result == 1, i, j)
+//@   after =bitV@3 bytefact: byteV == source[(j % 256) / 8] && source == sh_src(seed, r, j / 256)
+//@   after =bitV@3 jstep: j >= 1 && ((j - 1) % 8 != 7 ==> ((j - 1) % 256) / 8 == (j % 256) / 8 && j % 8 != 0) && ((j - 1) % 256 != 255 ==> (j - 1) / 256 == j / 256)
+//@   after =bitV@3 bit: result == sh_bit(seed, r, j)
+//@   after =r@4 done_fwd: dir ==> (forall x :: {input[x]} 0 <= x && x < listSize ==> input[x] == old(input)[sh_bwd(seed, listSize, x, r)])
+//@   after =r@6 done_bwd: !dir ==> (forall x :: {input[x]} 0 <= x && x < listSize ==> input[x] == old(input)[sh_up(seed, listSize, x, r, rounds)])
+//@   after =bitV@3 flips: sh_flip(seed, r, listSize, i) == j && sh_flip(seed, r, listSize, j) == i && i < j
+//@   after =bitV@3 rounds: sh_round(seed, r, listSize, i) == ite(result == 1, j, i) && sh_round(seed, r, listSize, j) == ite(result == 1, i, j)
+//@   loop 1
+//@     invariant basics: r < rounds && len(buf) == 37 && listSize == len(input) && len(input) == old(len(input)) && 2 <= listSize && listSize <= 1099511627776 && ktrig(r) && ktrig(r + 1)
+//@     invariant seedbuf: forall b :: 0 <= b && b < 32 ==> buf[b] == seed[b]
+//@     invariant perm: forall x :: {input[x]} 0 <= x && x < listSize ==> input[x] == old(input)[sh_g(dir, seed, listSize, x, r, rounds)]
+//@   loop 2
+//@     invariant basics: r < rounds && len(buf) == 37 && listSize == len(input) && len(input) == old(len(input)) && 2 <= listSize && listSize <= 1099511627776 && ktrig(r) && ktrig(r + 1)
+//@     invariant seedbuf: (forall b :: 0 <= b && b < 32 ==> buf[b] == seed[b]) && buf[32] == r
+//@     invariant pair: i + j == pivot && i <= mirror && mirror == (pivot + 1) / 2 && pivot < listSize && pivot == sh_pivot(seed, r, listSize)
+//@     invariant src: j % 256 != 255 ==> source == sh_src(seed, r, j / 256)
+//@     invariant byte: j % 8 != 7 ==> byteV == source[(j % 256) / 8]
+//@     invariant perm: forall x :: {input[x]} 0 <= x && x < listSize ==> input[x] == old(input)[sh_g(dir, seed, listSize, ite(x < i || (j < x && x <= pivot), sh_round(seed, r, listSize, x), x), r, rounds)]
+//@   loop 3
+//@     invariant basics: r < rounds && len(buf) == 37 && listSize == len(input) && len(input) == old(len(input)) && 2 <= listSize && listSize <= 1099511627776 && ktrig(r) && ktrig(r + 1)
+//@     invariant seedbuf: (forall b :: 0 <= b && b < 32 ==> buf[b] == seed[b]) && buf[32] == r
+//@     invariant pair: i + j == pivot + listSize && pivot < i && i <= mirror && mirror == (pivot + listSize + 1) / 2 && j < listSize && pivot < listSize && pivot == sh_pivot(seed, r, listSize)
+//@     invariant src: j % 256 != 255 ==> source == sh_src(seed, r, j / 256)
+//@     invariant byte: j % 8 != 7 ==> byteV == source[(j % 256) / 8]
+//@     invariant perm: forall x :: {input[x]} 0 <= x && x < listSize ==> input[x] == old(input)[sh_g(dir, seed, listSize, ite(x <= pivot || x < i || j < x, sh_round(seed, r, listSize, x), x), r, rounds)]
+
+//@ func ShuffleList(rounds, input, seed)
+//@   nooverflow
+//@   property C06
+//@   use sh_pivot_def, sh_src_def, sh_bit_def, sh_round_def, sh_bwd_def, sh_up_def, sh_mod2n, sh_pivot_range
+//@   requires len(input) <= 1099511627776
+//@   assigns input
+//@   ensures len: len(input) == old(len(input))
+//@   ensures shuffled: len(input) > 1 && rounds > 0 ==> (forall x :: {input[x]} 0 <= x && x < len(input) ==> input[x] == old(input)[sh_bwd(seed, len(input), x, rounds)])
+//@   ensures trivial: len(input) <= 1 || rounds == 0 ==> (forall x :: {input[x]} 0 <= x && x < len(input) ==> input[x] == old(input)[x])
+
+//@ func UnshuffleList(rounds, input, seed)
+//@   nooverflow
+//@   property C06 C07
+//@   use sh_pivot_def, sh_src_def, sh_bit_def, sh_round_def, sh_bwd_def, sh_up_def, sh_mod2n, sh_pivot_range, sh_up_fwd
+//@   requires len(input) <= 1099511627776
+//@   assigns input
+//@   ensures len: len(input) == old(len(input))
+//@   ensures unshuffled: len(input) > 1 && rounds > 0 ==> (forall x :: {input[x]} 0 <= x && x < len(input) ==> input[x] == old(input)[sh_fwd(seed, len(input), x, rounds)])
+//@   ensures trivial: len(input) <= 1 || rounds == 0 ==> (forall x :: {input[x]} 0 <= x && x < len(input) ==> input[x] == old(input)[x])
 
 
 // BEGIN C18 generated (tools/gen_c18.py in /verif)
